@@ -1,15 +1,17 @@
 #!/bin/bash
 # usage: tools/try_patch.sh <patch.diff> <ID> [<ID>...]
-# applies the patch to /repo, runs the given checks (evidence redirected), reverts the patch.
+# applies the patch to a plain copy of /repo under /var/tmp (removed afterwards) and runs the given checks against
+# it (evidence redirected); /repo itself is not touched.
 set -u
 patch="$(realpath "$1")"; shift
+wt=$(mktemp -d /var/tmp/try_wt.XXXXXX)
 export VERIF_EVIDENCE_DIR=$(mktemp -d /var/tmp/verif-ev.XXXXXX)
-if ! git -C /repo diff --quiet; then echo "refusing: /repo has local changes"; exit 9; fi
-git -C /repo apply "$patch" || { echo "patch does not apply"; exit 9; }
+rsync -a --exclude .git --exclude target /repo/ "$wt/"
+( cd "$wt" && git apply "$patch" ) || { echo "patch does not apply"; rm -rf "$wt" "$VERIF_EVIDENCE_DIR"; exit 9; }
+export VERIF_REPO="$wt"
 for id in "$@"; do
   out=$(python3 /verif/rules/check.py "$id" 2>&1); rc=$?
   echo "== $id exit=$rc"
-  echo "$out" | grep -E "VIOLATION|KNOWN-FINDING|INCONCLUSIVE|BROKEN|violation " | cut -c1-300 | head -${LINES_MAX:-12}
+  echo "$out" | grep -E "VIOLATION|KNOWN-FINDING|INCONCLUSIVE|BROKEN|violation " | cut -c1-${COLS_MAX:-300} | head -${LINES_MAX:-12}
 done
-git -C /repo checkout -- . ; git -C /repo clean -fdq -e target
-rm -rf "$VERIF_EVIDENCE_DIR"
+rm -rf "$wt" "$VERIF_EVIDENCE_DIR"
